@@ -112,55 +112,46 @@ mod v_iface_pollat {
             if eth { Medium::Ethernet } else { Medium::Ip }
         }
 
-        /// Drive the interface's `Slaac` to a symbolic reachable state, all events at instants <= `now`.
-        /// Returns a tag for covers: 0 Start, 1 Discovering (1..=2 solicitations sent), 2 Discovering
-        /// with the budget spent, 3 Maintaining (0 or 1 router stored).
-        pub(super) fn any_slaac_history(iface: &mut Interface, now: i64) -> u8 {
-            let k: u8 = kani::any();
-            kani::assume(k <= 3);
-            if k == 0 {
-                return 0;
+        /// Drive the interface's `Slaac` through history `tag` (concrete on each path, so that loops over
+        /// stored routes have constant trip counts), every event at a symbolic instant <= `now`:
+        ///   0 Start (nothing happened)            1 Discovering, 1..=2 solicitations sent
+        ///   2 Discovering, all 3 solicitations sent, no answer
+        ///   3 Maintaining, router answered with lifetime 0 (nothing stored)
+        ///   4 Maintaining, router answered with a symbolic lifetime 1 us ..= 65535 s (route stored, not yet synced)
+        pub(super) fn slaac_history(iface: &mut Interface, now: i64, tag: u8) {
+            if tag == 0 {
+                return;
             }
             let s = &mut iface.inner.slaac;
             let t1 = any_us(0, now);
             // first solicitation (Start: due at any instant)
             kani::assume(s.rs_required(us(t1)));
             s.rs_sent(us(t1));
-            if k == 1 {
+            if tag == 1 {
                 if kani::any() {
                     let t2 = any_us(t1 + RSI, now);
                     kani::assume(s.rs_required(us(t2)));
                     s.rs_sent(us(t2));
                 }
-                return 1;
+                return;
             }
-            if k == 2 {
+            if tag == 2 {
                 let t2 = any_us(t1 + RSI, now);
                 kani::assume(s.rs_required(us(t2)));
                 s.rs_sent(us(t2));
                 let t3 = any_us(t2 + RSI, now);
                 kani::assume(s.rs_required(us(t3)));
                 s.rs_sent(us(t3));
-                return 2;
+                return;
             }
-            // a router answers at t_ra with a symbolic lifetime (0 = "not a default router")
+            // a router answers at t_ra
             let t_ra = any_us(t1, now);
-            let life = any_us(0, 65_535_000_000) as u64;
+            let life = if tag == 3 { 0 } else { any_us(1, 65_535_000_000) as u64 };
             s.process_advertisement(&ROUTER, Duration::from_micros(life), None, us(t_ra));
-            // the interface copies the route at its next maintenance
-            if kani::any() {
-                let t_sync = any_us(t_ra, now);
-                if iface.inner.slaac.sync_required(us(t_sync)) {
-                    iface.sync_slaac_state(us(t_sync));
-                }
-            }
-            3
         }
 
         // ------------------------------------------------------------------ combination of deadlines
-        pub(super) fn combination_body() {
-            let eth: bool = kani::any();
-            let slaac_on: bool = kani::any();
+        fn combination_path(eth: bool, slaac_on: bool, tag: u8, with_tcp: bool) {
             let mut dev = NullDev { medium: medium(eth), mtu: 1500, checksum: ChecksumCapabilities::ignored() };
             let now = any_us(0, T_MAX);
             let nowi = us(now);
@@ -169,7 +160,9 @@ mod v_iface_pollat {
                 a.push(IpCidr::Ipv6(Ipv6Cidr::new(LL, 64))).unwrap();
             });
             // advertisements and solicitations only touch `slaac` when it is enabled
-            let tag = if slaac_on { any_slaac_history(&mut iface, now) } else { 0 };
+            if slaac_on {
+                slaac_history(&mut iface, now, tag);
+            }
 
             // 0..=2 UDP sockets (queue empty: Ingress, non-empty: Now), optionally a TCP socket whose
             // SYN went out at a symbolic instant (retransmission timer: Time(t))
@@ -195,9 +188,8 @@ mod v_iface_pollat {
             if n_udp >= 2 {
                 sockets.add(u1);
             }
-            let with_tcp: bool = kani::any();
-            let mut t0 = stcp::Socket::new(stcp::SocketBuffer::new(&mut trx[..]), stcp::SocketBuffer::new(&mut ttx[..]));
             if with_tcp {
+                let mut t0 = stcp::Socket::new(stcp::SocketBuffer::new(&mut trx[..]), stcp::SocketBuffer::new(&mut ttx[..]));
                 let t_syn = any_us(0, now);
                 iface.inner.now = us(t_syn);
                 t0.connect(&mut iface.inner, (IpAddress::Ipv6(PEER), 80u16), 4000u16).unwrap();
@@ -212,12 +204,13 @@ mod v_iface_pollat {
             let got = iface.poll_at(nowi, &sockets);
             crate::vdump!("sockets: {:?}  slaac: {:?}  expected min: {:?}  Interface::poll_at: {:?}", d_sock, d_slaac, want, got);
 
+            // (witnesses first: a failing assertion cuts off the paths behind it)
             kani::cover!(slaac_on && d_sock.is_none() && d_slaac.is_some(), "only SLAAC has a deadline");
             kani::cover!(slaac_on && d_slaac.is_none() && d_sock.is_some(), "SLAAC idle, a socket has a deadline");
             kani::cover!(slaac_on && with_tcp && n_udp == 0 && d_slaac.is_some() && d_sock.unwrap() > nowi && d_slaac.unwrap() > d_sock.unwrap(), "timed socket deadline before timed SLAAC deadline");
             kani::cover!(!slaac_on && n_udp == 2 && q1 && !q0 && !with_tcp, "second of two UDP sockets due");
-            kani::cover!(tag == 3 && eth && d_slaac.is_some(), "router lifetime running");
-            kani::cover!(want.is_none() && n_udp == 2 && with_tcp == false, "nothing scheduled");
+            kani::cover!(tag == 4 && eth && d_slaac.is_some() && d_slaac.unwrap() > nowi, "router lifetime running");
+            kani::cover!(want.is_none() && n_udp == 2 && !with_tcp, "nothing scheduled");
 
             if want.is_some() {
                 assert!(got.is_some(), "prop:c13_iface_poll_at_keeps_finite_deadline");
@@ -229,69 +222,95 @@ mod v_iface_pollat {
             }
         }
 
-        // ------------------------------------------------------------------ poll vs poll_at on a real interface
-        pub(super) struct Pre {
-            pub(super) tag: u8,
-            pub(super) slaac_on: bool,
-            pub(super) queued: bool,
+        /// medium, Config.slaac, SLAAC history and presence of the TCP socket are concrete on each path
+        pub(super) fn combination_body() {
+            let shape: u8 = kani::any();
+            match shape {
+                0 => combination_path(false, false, 0, false),
+                1 => combination_path(true, false, 0, true),
+                2 => combination_path(false, true, 0, false),
+                3 => combination_path(true, true, 1, false),
+                4 => combination_path(false, true, 1, true),
+                5 => combination_path(true, true, 2, false),
+                6 => combination_path(false, true, 3, true),
+                7 => combination_path(true, true, 3, false),
+                8 => combination_path(false, true, 4, true),
+                _ => combination_path(true, true, 4, false),
+            }
         }
 
+        // ------------------------------------------------------------------ poll vs poll_at on a real interface
+        // `slaac_on` (=> Ethernet, see the modelling note at the top), the SLAAC history and whether a
+        // datagram is queued are concrete on each path: `Interface::poll` repeats `poll_egress` until
+        // nothing was sent, and that loop must end by constant propagation (the unwinding bound has to
+        // be >= 17 for 16-byte address comparisons, far more than the 2 rounds a poll needs here).
         macro_rules! poll_env {
-            ($dev:ident, $iface:ident, $sockets:ident, $pre:ident, $now:ident) => {
-                let slaac_on: bool = kani::any();
-                // see the modelling note at the top: SLAAC only on Ethernet
-                let eth = slaac_on;
+            ($dev:ident, $iface:ident, $sockets:ident, $now:ident, $slaac_on:expr, $tag:expr, $queued:expr) => {
+                let eth = $slaac_on;
                 let mut $dev = CapDev::<FRAME>::new(medium(eth), 1500, ChecksumCapabilities::ignored());
                 let $now = any_us(0, T_MAX);
-                let mut $iface = Interface::new(config(eth, slaac_on), &mut $dev, us(0));
+                let mut $iface = Interface::new(config(eth, $slaac_on), &mut $dev, us(0));
                 $iface.update_ip_addrs(|a| {
                     a.push(IpCidr::Ipv6(Ipv6Cidr::new(LL, 64))).unwrap();
                 });
                 // announce the solicited-node group now (outside C13), then start counting frames
                 $iface.multicast_egress(&mut $dev);
                 $dev.tx.frames = 0;
-                let tag = if slaac_on { any_slaac_history(&mut $iface, $now) } else { 0 };
+                if $slaac_on {
+                    slaac_history(&mut $iface, $now, $tag);
+                }
                 udp_socket!(u0, 1000);
                 let mut storage = [SocketStorage::EMPTY];
                 let mut $sockets = SocketSet::new(&mut storage[..]);
-                let queued: bool = kani::any();
-                if queued {
+                if $queued {
                     // multicast destination: no neighbor discovery on Ethernet
                     u0.send_slice(&[1, 2], IpEndpoint::new(IpAddress::Ipv6(ALL_NODES), 7)).unwrap();
                 }
                 $sockets.add(u0);
-                let $pre = Pre { tag, slaac_on, queued };
                 assert!($iface.fragmenter_is_idle(), "inv:fragmenter_empty");
             };
         }
 
-        pub(super) fn nonspin_body() {
-            poll_env!(dev, iface, sockets, pre, now);
+        fn nonspin_path(slaac_on: bool, tag: u8, queued: bool) {
+            poll_env!(dev, iface, sockets, now, slaac_on, tag, queued);
             let nowi = us(now);
-            crate::vdump!("PRE now={} slaac_enabled={} slaac={:?} udp_queued={}", nowi, pre.slaac_on, iface.inner.slaac, pre.queued);
+            crate::vdump!("PRE now={} slaac_enabled={} slaac={:?} udp_queued={}", nowi, slaac_on, iface.inner.slaac, queued);
             let res = iface.poll(nowi, &mut dev, &mut sockets);
             let frames = dev.tx.frames;
             let d = iface.poll_at(nowi, &sockets);
             crate::vdump!("POST frames={} poll={:?} slaac={:?} poll_at={:?} poll_delay={:?}", frames, res, iface.inner.slaac, d, iface.poll_delay(nowi, &sockets));
-            kani::cover!(frames == 0 && pre.tag == 1, "idle poll while waiting for the solicitation interval");
-            kani::cover!(frames == 0 && pre.tag == 2, "idle poll after the last solicitation");
-            kani::cover!(frames == 2 && pre.queued && pre.slaac_on, "router solicitation and datagram in one poll");
-            kani::cover!(frames == 0 && pre.tag == 3 && d.is_some(), "idle poll with a router lifetime running");
-            kani::cover!(frames == 1 && !pre.slaac_on, "datagram sent on Medium::Ip");
+            kani::cover!(frames == 0 && tag == 1, "idle poll while waiting for the solicitation interval");
+            kani::cover!(frames == 0 && tag == 2, "idle poll after the last solicitation");
+            kani::cover!(frames == 2 && queued && slaac_on, "router solicitation and datagram in one poll");
+            kani::cover!(frames == 0 && tag == 4 && d.is_some(), "idle poll with a router lifetime running");
+            kani::cover!(frames == 1 && !slaac_on, "datagram sent on Medium::Ip");
             if frames == 0 {
                 // nothing received (rx_pending = false), nothing transmitted: the deadline lies ahead or is absent
                 assert!(d.is_none() || d.unwrap() > nowi, "prop:c13_iface_idle_poll_leaves_future_deadline");
                 assert!(res == PollResult::None, "prop:c13_iface_idle_poll_reports_no_change");
             }
-            if pre.queued {
+            if queued {
                 assert!(frames >= 1, "prop:c13_iface_due_socket_is_served");
             }
         }
 
-        pub(super) fn early_body() {
-            poll_env!(dev, iface, sockets, pre, now);
+        pub(super) fn nonspin_body() {
+            let shape: u8 = kani::any();
+            match shape {
+                0 => nonspin_path(false, 0, false),
+                1 => nonspin_path(false, 0, true),
+                2 => nonspin_path(true, 0, true),
+                3 => nonspin_path(true, 1, false),
+                4 => nonspin_path(true, 2, false),
+                5 => nonspin_path(true, 3, false),
+                _ => nonspin_path(true, 4, false),
+            }
+        }
+
+        fn early_path(slaac_on: bool, tag: u8) {
+            poll_env!(dev, iface, sockets, now, slaac_on, tag, false);
             let nowi = us(now);
-            crate::vdump!("PRE now={} slaac_enabled={} slaac={:?} udp_queued={}", nowi, pre.slaac_on, iface.inner.slaac, pre.queued);
+            crate::vdump!("PRE now={} slaac_enabled={} slaac={:?}", nowi, slaac_on, iface.inner.slaac);
             let d = iface.poll_at(nowi, &sockets);
             // any probe instant from `now` up to (excluding) the advertised deadline
             let t = any_us(now, T_MAX + RSI);
@@ -303,10 +322,23 @@ mod v_iface_pollat {
             crate::vdump!("poll_at({}) = {:?}; polling at {}", nowi, d, us(t));
             let _ = iface.poll(us(t), &mut dev, &mut sockets);
             crate::vdump!("POST frames={} slaac={:?}", dev.tx.frames, iface.inner.slaac);
-            kani::cover!(pre.tag == 1 && t > now, "probe inside the solicitation interval");
-            kani::cover!(d.is_none() && !pre.slaac_on, "no deadline at all");
-            kani::cover!(pre.tag == 3 && d.is_some() && t > now, "probe before a router lifetime ends");
+            kani::cover!(tag == 1 && t > now, "probe inside the solicitation interval");
+            kani::cover!(d.is_none() && !slaac_on, "no deadline at all");
+            kani::cover!(tag == 4 && d.is_some() && t > now, "probe before a router lifetime ends");
             assert!(dev.tx.frames == 0, "prop:c13_iface_nothing_sent_before_poll_at");
+        }
+
+        /// (a queued datagram makes poll_at "now": no early instant exists, so the socket is idle here)
+        pub(super) fn early_body() {
+            let shape: u8 = kani::any();
+            match shape {
+                0 => early_path(false, 0),
+                1 => early_path(true, 0),
+                2 => early_path(true, 1),
+                3 => early_path(true, 2),
+                4 => early_path(true, 3),
+                _ => early_path(true, 4),
+            }
         }
     }
 
@@ -324,21 +356,21 @@ mod v_iface_pollat {
         }
     }
 
-    // @harness props=C13 cfg=KI6 tier=q to=600 mem=8 unwind=18 opts=nomem covers=6 funcs=Interface::poll_at;Slaac::poll_at;Meta::poll_at;udp::Socket::poll_at;tcp::Socket::poll_at bounds=Medium::Ip_or_Ethernet;_Config.slaac_on/off;_SLAAC_state_from_4_symbolic_histories_(Start,_1..=3_solicitations,_router_answer_with_any_lifetime_up_to_65535_s,_synced_or_not)_at_symbolic_instants;_0..=2_UDP_sockets_(queue_empty/non-empty)_and_0..=1_TCP_socket_in_SYN-SENT_with_its_retransmission_timer_at_a_symbolic_instant;_neighbor_state_Active;_now_<2^50_us
+    // @harness props=C13 cfg=KI6 tier=q to=600 mem=8 unwind=18 opts=nomem covers=6 funcs=Interface::poll_at;Slaac::poll_at;Meta::poll_at;udp::Socket::poll_at;tcp::Socket::poll_at bounds=10_concrete_shapes_(Medium::Ip/Ethernet_x_Config.slaac_on/off_x_SLAAC_history_x_TCP_socket_present):_SLAAC_histories_Start_|_1..=2_solicitations_|_3_unanswered_solicitations_|_router_answer_with_lifetime_0_|_router_answer_with_lifetime_1us..=65535s,_all_at_symbolic_instants;_0..=2_UDP_sockets_(queue_empty/non-empty);_TCP_socket_in_SYN-SENT_with_its_retransmission_timer_at_a_symbolic_instant;_neighbor_state_Active;_now_<2^50_us
     #[kani::proof]
     pub(crate) fn poll_at_combination() {
         #[cfg(feature = "proto-ipv6-slaac")]
         v6::combination_body();
     }
 
-    // @harness props=C13 cfg=KI6 tier=q to=900 mem=8 unwind=18 opts=nomem covers=5 funcs=Interface::poll;Interface::poll_at;Interface::poll_egress;Interface::poll_maintenance;Interface::ndisc_rs_egress;Interface::socket_egress;Interface::sync_slaac_state bounds=Medium::Ip_without_SLAAC_or_Ethernet_with_SLAAC;_device_accepts_every_frame,_no_frame_pending;_SLAAC_state_from_4_symbolic_histories;_one_UDP_socket_with_0..=1_queued_2-byte_datagram_to_ff02::1;_fragmenter_empty;_multicast_joins_flushed;_now_<2^50_us
+    // @harness props=C13 cfg=KI6 tier=q to=900 mem=8 unwind=18 opts=nomem covers=5 funcs=Interface::poll;Interface::poll_at;Interface::poll_egress;Interface::poll_maintenance;Interface::ndisc_rs_egress;Interface::socket_egress;Interface::sync_slaac_state bounds=7_concrete_shapes:_Medium::Ip_without_SLAAC_(datagram_queued_or_not)_|_Ethernet_with_SLAAC_in_each_of_5_histories_(Start_with_a_queued_datagram;_1..=2_solicitations;_3_unanswered_solicitations;_router_lifetime_0;_router_lifetime_1us..=65535s_not_yet_synced),_events_at_symbolic_instants;_device_accepts_every_frame,_no_frame_pending;_one_UDP_socket,_2-byte_datagram_to_ff02::1;_fragmenter_empty;_multicast_joins_flushed;_now_<2^50_us
     #[kani::proof]
     pub(crate) fn poll_nonspin_iface() {
         #[cfg(feature = "proto-ipv6-slaac")]
         v6::nonspin_body();
     }
 
-    // @harness props=C13 cfg=KI6 tier=q to=900 mem=8 unwind=18 opts=nomem covers=3 funcs=Interface::poll;Interface::poll_at;Interface::poll_egress;Interface::ndisc_rs_egress;Interface::socket_egress bounds=same_interface_as_poll_nonspin_iface;_deadline_taken_at_now,_poll_at_any_probe_instant_in_[now,deadline)
+    // @harness props=C13 cfg=KI6 tier=q to=900 mem=8 unwind=18 opts=nomem covers=3 funcs=Interface::poll;Interface::poll_at;Interface::poll_egress;Interface::ndisc_rs_egress;Interface::socket_egress bounds=6_concrete_shapes:_Medium::Ip_without_SLAAC_|_Ethernet_with_SLAAC_in_each_of_5_histories;_idle_UDP_socket;_deadline_taken_at_now,_poll_at_any_probe_instant_in_[now,deadline)
     #[kani::proof]
     pub(crate) fn poll_early_iface() {
         #[cfg(feature = "proto-ipv6-slaac")]
@@ -353,8 +385,7 @@ mod v_iface_pollat {
         const LOCAL: Ipv4Address = Ipv4Address::new(192, 168, 1, 1);
         const PEER: Ipv4Address = Ipv4Address::new(192, 168, 1, 2);
 
-        pub(super) fn frag_body() {
-            let eth: bool = kani::any();
+        fn frag_path(eth: bool) {
             let mut dev = CapDev::<FRAME>::new(if eth { Medium::Ethernet } else { Medium::Ip }, 1500, ChecksumCapabilities::ignored());
             let now = any_us(0, T_MAX);
             let nowi = us(now);
@@ -385,6 +416,9 @@ mod v_iface_pollat {
             crate::vdump!("now={} fragmenter packet_len={} sent_bytes={} sockets={:?}", nowi, packet_len, sent, d_sock);
 
             let d = iface.poll_at(nowi, &sockets);
+            kani::cover!(sent < packet_len && d_sock.is_none() && sent > 0, "fragments pending, sockets idle");
+            kani::cover!(sent == packet_len && d_sock.is_some(), "fragmenter finished, socket due");
+            kani::cover!(sent == packet_len && d_sock.is_none() && eth, "fragmenter finished, nothing else to do");
             if sent < packet_len {
                 // unsent fragment bytes: poll again right away, whatever the sockets say
                 assert!(d.is_some() && d.unwrap() <= nowi, "prop:c13_pending_fragments_poll_now");
@@ -398,9 +432,10 @@ mod v_iface_pollat {
                 let d2 = iface.poll_at(nowi, &sockets);
                 assert!(wake(d2, nowi) == wake(d_sock, nowi), "prop:c13_iface_poll_at_is_min_of_finite_deadlines");
             }
-            kani::cover!(sent < packet_len && d_sock.is_none() && sent > 0, "fragments pending, sockets idle");
-            kani::cover!(sent == packet_len && d_sock.is_some(), "fragmenter finished, socket due");
-            kani::cover!(sent == packet_len && d_sock.is_none() && eth, "fragmenter finished, nothing else to do");
+        }
+
+        pub(super) fn frag_body() {
+            if kani::any() { frag_path(true) } else { frag_path(false) }
         }
     }
 
